@@ -53,3 +53,6 @@ package core
 //@ iface Aggregator.Report
 //@ ensures ev(report) == old(ev(report)) + 1
 //@ modifies ev(report)
+
+//@ iface DataSink.OpenSink
+//@ ensures iff(result1 == nil, result0 != nil)
